@@ -278,6 +278,9 @@ func makeScenario(run *vlib.Run, sd *gen.SchemaDesc, i int, stream string) *scen
 // "" when the error is acceptable.
 func (sc *scenario) checkError(err error, opName string) string {
 	text := err.Error()
+	// several planned failures may carry the same error value (context.Canceled
+	// itself): the error is acceptable if it fits ANY of them
+	misprefixed := ""
 	for _, f := range sc.onPath {
 		switch f.kind {
 		case fSafe, fClient, fWrapSafe, fSafeWrapsCanceled:
@@ -320,7 +323,12 @@ func (sc *scenario) checkError(err error, opName string) string {
 				return ""
 			}
 		}
-		return fmt.Sprintf("error of failing field %s.%s is not prefixed with the response path of an instance of that field: prefix %q", f.typ, f.field, text[:idx])
+		if misprefixed == "" {
+			misprefixed = fmt.Sprintf("error of failing field %s.%s is not prefixed with the response path of an instance of that field: prefix %q", f.typ, f.field, text[:idx])
+		}
+	}
+	if misprefixed != "" {
+		return misprefixed
 	}
 	return "error is not one raised by a failing field on a selected path"
 }
